@@ -27,6 +27,15 @@ elements whose formula returns None (kind N: None while the reference x is even)
 every formula reads its callees through the reference NZ (None counts as -1).  The same oracle applies: an assigned
 None persists, reports is_input and is what the cells returns; a held None is served without its formula running;
 the values computed from it are those of the definitions.
+Nets that span two models (`cross-model`): the nodes are split over a model A and a model B, an element of the other
+model is read through a reference bound to the other model's cells (layouts xmc, xma) or space (xms); every DAG with
+at least one dependency across the boundary (chains A -> B -> A included).  The same edit sequences and the same
+oracle run over them; whether the precedent in the other model was already held when its reader was computed
+(assigned by the user / computed earlier) or was computed on demand follows from the initial evaluation and the
+edits and is reported as the tag precedent:held-input|held-computed|on-demand of the discarded dependents.
+The recalculation option is not part of the statement and its reach across models is not documented: in these nets
+an assignment made with the option on may leave any not-held element computed or not (if held: the value of the
+definitions, its formula having run once); everything else is checked as with the option off.
 Models are reused between cases (reset by a checked Model.clear_all()); a failure seen on a reused model is
 re-run on a fresh one, if necessary together with the preceding cases, before it is reported.
 """
@@ -42,34 +51,101 @@ class Net:
     """preds[i] = tuple of j < i;  kinds[i] in C (cached cells) U (uncached cells) I (ItemSpace node) N (cached cells
     whose formula returns None while x is even; nets with allow_none only);
     layout: one (scalar cells in S) / two (even nodes in S, odd in T, calls by attribute path) / args (one cells
-    f(i)) / args2 (one cells f(i, j), positional and keyword arguments)."""
+    f(i)) / args2 (one cells f(i, j), positional and keyword arguments);
+    nets that span two models (models = one letter A/B per node: node i lives in space S of model `m` (A) or in
+    space T of a second model `mb` (B)): xmc (scalar cells, an element of the other model is read through a
+    reference bound to the cells) / xms (scalar cells, through a reference bound to the other model's space) /
+    xma (one cells f(i) per model, the other one read through a reference bound to the cells)."""
 
-    def __init__(self, preds, kinds, layout, none=None):
+    XM = ("xmc", "xms", "xma")
+
+    def __init__(self, preds, kinds, layout, none=None, models=None):
         self.preds, self.kinds, self.layout = tuple(map(tuple, preds)), tuple(kinds), layout
         self.none = none            # None | 'cells' | 'space' | 'model': where allow_none is switched on
         assert none or "N" not in kinds
+        self.models = models
+        self.cross = models is not None
+        assert self.cross == (layout in self.XM) and not (self.cross and none)
+        assert not self.cross or (len(models) == len(preds) and "I" not in kinds)
+        self.argslike = layout in ("args", "args2", "xma")
         self.n = len(preds)
         self.key = "%s/%s/%s" % (layout, "".join(kinds), ";".join(",".join(map(str, p)) for p in preds))
         if none:
             self.key += "/none:" + none
+        if models:
+            self.key += "/models:" + models
 
     def sp(self, i):
+        if self.cross:
+            return "T" if self.models[i] == "B" else "S"
         if self.layout == "two" and i % 2:
             return "T"
         return "S"
+
+    def mvar(self, i):
+        """The variable the model of node i is bound to in the build / replay code."""
+        return "mb" if self.cross and self.models[i] == "B" else "m"
+
+    def reads_other(self, i):
+        """Node i reads an element of the other model (directly or through uncached cells of its own model)."""
+        return any(self.sp(j) != self.sp(i) or (self.kinds[j] == "U" and self.reads_other(j)) for j in self.preds[i])
+
+    def cells_expr(self, i):
+        """The cells that holds node i (for the nets with one cells per model: i = any node of that model)."""
+        if self.layout in ("args", "args2"):
+            return "m.S.f"
+        if self.layout == "xma":
+            return "%s.%s.f" % (self.mvar(i), self.sp(i))
+        return "%s.%s.c%d" % (self.mvar(i), self.sp(i), i)
 
     def K(self, i):
         return 1000 * (i + 1)
 
     # -- source text of the real model
     def pred_expr(self, j, ctx):
+        if self.cross:              # ctx = the space of the reader: S (model A) or T (model B)
+            if self.sp(j) == ctx:
+                return "c%d()" % j
+            return "r%d()" % j if self.layout == "xmc" else "O.c%d()" % j
         if self.kinds[j] == "I":
             return "_model.P%d[0].v()" % j
         if self.sp(j) == ctx:
             return "c%d()" % j
         return "_model.%s.c%d()" % (self.sp(j), j)
 
+    def build_lines_cross(self):
+        """Two models; the formulas of one read elements of the other through references set after both exist."""
+        L = ["m.LOG = []", "S = m.new_space('S')", "S.x = 0",
+             "mb = mx.new_model('MB')", "mb.LOG = m.LOG", "T = mb.new_space('T')", "T.x = 0"]
+        n = self.n
+        crossing = [(j, i) for i in range(n) for j in self.preds[i] if self.sp(j) != self.sp(i)]
+        if self.layout == "xma":
+            for spv in ("S", "T"):
+                L.append("%s.K = %r" % (spv, tuple(self.K(i) for i in range(n)),))
+                L.append("%s.PW = %r" % (spv, tuple(tuple((j, WEIGHT[j], self.sp(j) == self.sp(i))
+                                                          for j in self.preds[i]) for i in range(n)),))
+                L.append("%s.new_cells('f', formula=%r)" % (
+                    spv, "def f(i):\n    LOG.append(i)\n"
+                         "    return K[i] + x + sum([w * (f(j) if here else fo(j)) for j, w, here in PW[i]])"))
+            L += ["S.fo = mb.T.f", "T.fo = m.S.f"]
+            return L
+        for i in range(n):
+            sp = self.sp(i)
+            terms = "".join(" + %d * %s" % (WEIGHT[j], self.pred_expr(j, sp)) for j in self.preds[i])
+            src = "def c%d():\n    LOG.append(%d)\n    return %d + x%s" % (i, i, self.K(i), terms)
+            L.append("%s.new_cells('c%d', formula=%r%s)" % (
+                sp, i, src, ", is_cached=False" if self.kinds[i] == "U" else ""))
+        if self.layout == "xmc":
+            for j, sp in sorted(set((j, self.sp(i)) for j, i in crossing)):
+                L.append("%s.r%d = %s" % (sp, j, self.cells_expr(j)))
+        else:
+            for sp in sorted(set(self.sp(i) for j, i in crossing)):
+                L.append("S.O = mb.T" if sp == "S" else "T.O = m.S")
+        return L
+
     def build_lines(self):
+        if self.cross:
+            return self.build_lines_cross()
         if self.none:
             return self.build_lines_none()
         L = ["m.LOG = []", "S = m.new_space('S')", "S.x = 0"]
@@ -132,6 +208,10 @@ class Net:
         return L
 
     def eval_expr(self, i):
+        if self.layout == "xma":
+            return "%s(%d)" % (self.cells_expr(i), i)
+        if self.cross:
+            return "%s()" % self.cells_expr(i)
         if self.layout == "args":
             return "m.S.f(%d)" % i
         if self.layout == "args2":
@@ -141,25 +221,25 @@ class Net:
         return "m.%s.c%d()" % (self.sp(i), i)
 
     def op_line(self, op, i, v=None):
-        a = self.layout in ("args", "args2")
+        a = self.argslike
         if self.layout == "args2" and op in ("A", "C"):
             if op == "A":
                 return "m.S.f[%d, 0] = %d" % (i, v)
             return "m.S.f.clear_at(%d, 0)" % i if i % 2 == 0 else "m.S.f.clear_at(i=%d, j=0)" % i
         k = self.kinds[i] if i is not None else None
-        c = None if (a or i is None) else "m.%s.c%d" % (self.sp(i), i)
+        c = None if (op == "X" or (i is None and not a)) else self.cells_expr(i)
         if op == "A":
-            return "m.S.f[%d] = %r" % (i, v) if a else ("%s.value = %r" % (c, v) if i % 2 == 0 else "%s = %r" % (c, v))
+            return "%s[%d] = %r" % (c, i, v) if a else ("%s.value = %r" % (c, v) if i % 2 == 0 else "%s = %r" % (c, v))
         if op == "C":
             if a:
-                return "m.S.f.clear_at(%d)" % i
+                return "%s.clear_at(%d)" % (c, i)
             if k == "I":
                 return "del m.P%d[0]" % i
             return "%s.clear_at()" % c if i % 2 == 0 else "del %s.value" % c
         if op == "CL":
-            return "m.S.f.clear()" if a else ("m.P%d.clear_items()" % i if k == "I" else "%s.clear()" % c)
+            return "%s.clear()" % c if a else ("m.P%d.clear_items()" % i if k == "I" else "%s.clear()" % c)
         if op == "CA":
-            return "m.S.f.clear_all()" if a else ("m.P%d.clear_all()" % i if k == "I" else "%s.clear_all()" % c)
+            return "%s.clear_all()" % c if a else ("m.P%d.clear_all()" % i if k == "I" else "%s.clear_all()" % c)
         if op == "X":
             return "m.S.x = %d" % v
         raise ValueError(op)
@@ -167,7 +247,11 @@ class Net:
     def ops(self):
         """Statically applicable operations (kind, node)."""
         out = []
-        if self.layout in ("args", "args2"):
+        if self.layout == "xma":    # clear() / clear_all() of the cells of each model (named by its first node)
+            out += [("A", i) for i in range(self.n)] + [("C", i) for i in range(self.n)]
+            for first in sorted(set(self.models.index(x) for x in self.models)):
+                out += [("CL", first), ("CA", first)]
+        elif self.layout in ("args", "args2"):
             out += [("A", i) for i in range(self.n)] + [("C", i) for i in range(self.n)]
             out += [("CL", None), ("CA", None)]
         else:
@@ -195,8 +279,30 @@ def all_dags(n):
         yield preds
 
 
+def model_splits(n):
+    """Assignments of the nodes to the models A / B: node 0 in A, at least one node in B."""
+    for rest in itertools.product("AB", repeat=n - 1):
+        if "B" in rest:
+            yield "A" + "".join(rest)
+
+
 def nets_of(n, variants):
-    """variants: subset of {'one','two','args','U','I'}."""
+    """variants: subset of {'one','two','args','U','I', ...}."""
+    # nets that span two models: every DAG x every split of the nodes over the two models with at least one
+    # dependency across the boundary (xmU: additionally one uncached cells, at every position)
+    for lay in Net.XM + ("xmU",):
+        if lay not in variants or n < 2:
+            continue
+        for preds in all_dags(n):
+            for models in model_splits(n):
+                if not any(models[j] != models[i] for i in range(n) for j in preds[i]):
+                    continue
+                if lay == "xmU":
+                    for pos in range(n):
+                        for lay2 in ("xmc", "xms"):
+                            yield Net(preds, "C" * pos + "U" + "C" * (n - pos - 1), lay2, models=models)
+                else:
+                    yield Net(preds, "C" * n, lay, models=models)
     for preds in all_dags(n):
         for lay in ("one", "two", "args", "args2"):
             if lay in variants and (lay != "two" or n >= 2):
@@ -246,6 +352,7 @@ class Sim:
         self.val, self.deps, self.inp = {}, {}, set()
         self.x = {"S": 0, "T": 0}
         self.log = []
+        self.how = {}               # (j, i), i in another model than j: what i found when it read j (last time)
 
     # elements: ('c', i) cells element, ('I', i) ItemSpace node P_i[0], ('V', i) the value P_i[0].v()
     def formula(self, i, d, with_x=True):
@@ -253,6 +360,10 @@ class Sim:
         x = self.x[net.sp(i)]
         v = net.K(i) + (x if with_x else 0)
         for j in net.preds[i]:
+            if net.cross and net.sp(j) != net.sp(i):
+                e = ("c", j)
+                self.how[(j, i)] = ("on-demand" if e not in self.val or net.kinds[j] == "U" else
+                                    "held-input" if e in self.inp else "held-computed")
             p = self.ev(j, d)
             v += WEIGHT[j] * (-1 if p is None else p)       # nets without allow_none never hold None
         if net.kinds[i] == "N" and x % 2 == 0:
@@ -311,6 +422,8 @@ class Sim:
     def elems_of_cells(self, i):
         if self.net.layout in ("args", "args2"):
             return [e for e in self.val if e[0] == "c"]
+        if self.net.layout == "xma":
+            return [e for e in self.val if e[0] == "c" and self.net.sp(e[1]) == self.net.sp(i)]
         return [("c", i)] if ("c", i) in self.val else []
 
     # -- operations; each returns the set of discarded dependents (excluding the edited element itself)
@@ -337,6 +450,39 @@ class Sim:
         self.discard(D | set(roots))
         return D
 
+    def would_recompute(self, D):
+        """[(label, value, log entry)] of the elements D (not held) if they were computed now (self unchanged)."""
+        s2 = Sim(self.net)
+        s2.val, s2.deps, s2.inp, s2.x = dict(self.val), dict(self.deps), set(self.inp), dict(self.x)
+        out = []
+        for e in sorted(D):
+            s2.ev(e[1], set())
+            out.append((self.label(e), s2.val[e], e[1]))
+        return out
+
+    def cross_tags(self, roots, D):
+        """Features of the discarded set D of an edit of `roots` in a net that spans two models: what a discarded
+        dependent had found when it read its precedent in the other model; the boundary crossed more than once."""
+        net = self.net
+        t = set()
+        rootn = set(r[1] for r in roots if r[0] == "c")
+        reach = {}                  # node computed from a root -> model boundaries crossed on the way (max)
+        for i in range(net.n):      # node order is a topological order
+            if i in rootn:
+                reach[i] = 0
+            elif ("c", i) in D or net.kinds[i] == "U":
+                hops = [reach[j] + (net.sp(j) != net.sp(i)) for j in net.preds[i] if j in reach]
+                if hops:
+                    reach[i] = max(hops)
+                    if ("c", i) in D:
+                        t.update("precedent:" + self.how.get((j, i), "on-demand")
+                                 for j in net.preds[i] if j in reach and net.sp(j) != net.sp(i))
+        if any(reach.get(e[1], 0) >= 2 for e in D):
+            t.add("boundary-crossed-twice")
+        if any(net.sp(e[1]) != net.sp(r) for e in D for r in rootn):
+            t.add("dependent-in-other-model")
+        return sorted(t)
+
     def recompute(self, D):
         """Recalculation option: the discarded dependents are computed again at once."""
         optional = []
@@ -354,6 +500,8 @@ class Sim:
     def label(self, e):
         net = self.net
         if e[0] == "c":
+            if net.layout == "xma":
+                return "%s.f|%d" % (net.sp(e[1]), e[1])
             if net.layout == "args":
                 return "S.f|%d" % e[1]
             if net.layout == "args2":
@@ -389,13 +537,14 @@ class Bench:
         self.env = {"m": self.m, "mx": mx}
         for ln in net.build_lines():
             exec(ln, self.env)
+        self.models = [self.m] + ([self.env["mb"]] if "mb" in self.env else [])
         self.LOG = self.m.LOG
         self.xval = 0
         self.dirty = False
         self.history = []           # records of the last cases run on this model
 
     def reset_rec(self, recalc):
-        lines = ["mx.set_recalc(False)", "m.clear_all()"]
+        lines = ["mx.set_recalc(False)", "m.clear_all()"] + (["mb.clear_all()"] if self.net.cross else [])
         if self.xval != 0:
             lines.append("m.S.x = 0")
         lines += ["del m.LOG[:]", "mx.set_recalc(%r)" % bool(recalc)]
@@ -415,7 +564,7 @@ class Bench:
             self.dirty = True
             return [("raises:" + type(ex).__name__, "%s raised %s: %s" % (rec["ln"], type(ex).__name__, str(ex)[:100]))]
         try:
-            obs = observe(self.m)
+            obs = observe(*self.models)
         except Exception as ex:
             self.dirty = True
             return [("raises:" + type(ex).__name__, "reading dict(cells)/is_input/itemspaces after %s raised %s: %s"
@@ -467,6 +616,8 @@ def run_case(bench, case):
         base.append("net-has-uncached")
     if net.none:
         base.append("allow-none:" + net.none)
+    if net.cross:
+        base.append("cross-model")
 
     def none_tags():
         """Features of the state a step is checked in: an assigned / a computed element holds None."""
@@ -522,6 +673,10 @@ def run_case(bench, case):
             v = xcount
         ln = net.op_line(op, i, v)
         had_inputs = bool(sim.inp)
+        # feature of the state the edit is applied in: an assigned value sits on an element whose formula reads an
+        # element of the other model
+        xstate = ["input-on-reader-of-other-model"] if net.cross and any(
+            net.reads_other(e[1]) for e in sim.inp) else []
         s0 = len(sim.log)
         if op == "X":
             sim.x["S"] = v
@@ -533,6 +688,9 @@ def run_case(bench, case):
             sim.discard(gone)
             D = ()
         else:
+            if net.cross:           # the edited elements (for the tags of the step)
+                roots = [("c", i)] if op in ("A", "C") else \
+                    [e for e in sim.elems_of_cells(i) if op == "CA" or e not in sim.inp]
             if op == "A":
                 D = sim.assign(i, v)
             elif op == "C":
@@ -540,14 +698,23 @@ def run_case(bench, case):
             else:
                 D = sim.clear(i, inputs_too=(op == "CA"))
             rec = {"k": "edit", "ln": ln, "mode": "exact"}
-            if op == "A" and recalc and D:
+            if op == "A" and recalc and net.cross:
+                # the statement is silent on the recalculation option: across models any element that is not held
+                # after the discard (a discarded dependent or another one) may be computed at once or not - if it
+                # is held it has the value of the definitions and its formula ran once
+                rec["mode"] = "recalc"
+                rec["lenient"] = True
+                rec["optional"] = sim.would_recompute(("c", k) for k in range(net.n) if ("c", k) not in sim.val)
+            elif op == "A" and recalc and D:
                 opt = sim.recompute(D)
                 rec["mode"] = "recalc"
                 rec["optional"] = [(sim.label(e), sim.val[("I", e[1])], 100 + e[1]) for e in opt
                                    if ("I", e[1]) in sim.val]
             rec["state"] = sim.expected()
             rec["log"] = sim.log[s0:]
-        tags = base + ["op:" + kind] + struct_tags(D) + none_tags()
+        tags = base + ["op:" + kind] + struct_tags(D) + none_tags() + xstate
+        if net.cross and op != "X":
+            tags += sim.cross_tags(roots, D)
         if D or had_inputs or op == "A":
             nontrivial = True
         if not run(rec, tags):
@@ -559,7 +726,7 @@ def run_case(bench, case):
             held = bench.last_obs["held"]
             for lab, val, entry in rec["optional"]:
                 if lab in held:
-                    sim.ev(entry - 100, set())
+                    sim.ev(entry if net.cross else entry - 100, set())
         if eval_after is not None:
             tg = list(range(net.n)) if eval_after == "all" else [eval_after]
             if not do_eval(tg, tags + ["evaluation-after-edit"]):
@@ -593,6 +760,7 @@ STEPS = %(steps)r
 m = mx.new_model("M"); env = {"m": m, "mx": mx}
 for ln in BUILD:
     exec(ln, env)
+MODELS = [m] + ([env["mb"]] if "mb" in env else [])
 mx.set_recalc(RECALC)
 LOG = m.LOG
 code = 0
@@ -606,7 +774,7 @@ try:
                 value = eval(rec["ln"], env)
         except Exception as e:
             print(rec["ln"], "raised", type(e).__name__, e); code = 1; break
-        bad = check(rec, observe(m), LOG[n0:], value)
+        bad = check(rec, observe(*MODELS), LOG[n0:], value)
         print(rec["ln"], "->", value if rec["k"] == "eval" else "", "formulas run:", LOG[n0:])
         if bad:
             print("VIOLATION:", bad); code = 1; break
@@ -643,6 +811,10 @@ def plan(tier):
             (1, ("one", "args", "I"), 3, (None, "all"), (2, 2, 2), None),
             (2, ("one", "two", "args", "args2", "U", "I"), 2, (None, "all"), (2, 2), None),
             (3, ("one", "two", "args", "args2", "U", "I"), 2, (None,), (2, 0), None),
+            # nets that span two models (before the sampled rows: a run cut by the budget loses those first)
+            (2, ("xmc", "xms", "xma", "xmU"), 2, (None, "all"), (2, 2), None),
+            (3, ("xmc", "xms", "xma"), 2, (None,), (2, 0), None),
+            (3, ("xmc", "xma", "xmU"), 3, (None, "all"), (2, 2, 2), 30),
             (3, ("one", "args", "I"), 3, (None, "all"), (1, 1, 1), 40),
             (4, ("one",), 1, (None,), (1,), None),
             (4, ("one", "two", "args", "U", "I", "UU"), 2, (None, "all"), (1, 1), 8),
@@ -659,6 +831,11 @@ def plan(tier):
         (2, ("one", "two", "args", "args2", "U", "I"), 3, (None, "all"), (2, 2, 1), None),
         (3, ("one", "two", "args", "args2", "U", "I", "UU"), 2, (None, "all"), (2, 2), None),
         (3, ("one", "two", "args", "U", "I"), 3, (None,), (2, 2, 0), None),
+        # nets that span two models
+        (2, ("xmc", "xms", "xma", "xmU"), 3, (None, "all"), (2, 2, 1), None),
+        (3, ("xmc", "xms", "xma", "xmU"), 2, (None, "all"), (2, 0), None),
+        (3, ("xmc", "xms", "xma", "xmU"), 3, (None, "all"), (2, 2, 2), 150),
+        (4, ("xmc", "xma"), 3, (None, "all"), (1, 1, 1), 6),
         (4, ("one", "two", "args", "U", "I", "UU"), 1, (None,), (2,), None),
         (4, ("one", "args"), 2, (None,), (2, 1), None),
         (4, ("I", "U"), 2, (None,), (2, 0), None),
@@ -683,8 +860,8 @@ def work(task):
     fails = {}
     expired = False
     build_errors = []
-    for preds, kinds, layout, none in nets:
-        net = Net(preds, kinds, layout, none)
+    for preds, kinds, layout, none, models in nets:
+        net = Net(preds, kinds, layout, none, models)
         rng = random.Random("%s/%s/%s" % (seed, net.key, maxlen))
         try:
             bench = Bench(net)
@@ -692,11 +869,14 @@ def work(task):
             build_errors.append("%s: %s: %s" % (net.key, type(e).__name__, str(e)[:150]))
             continue
 
+        # (an uncached cells runs again on every call: what a recalculation across models executes is not fixed)
+        recalcs = (False,) if (net.cross and "U" in net.kinds) else (False, True)
+
         def gen():
             if sample is None:
                 for steps in sequences(net, maxlen, evals):
                     for init in inits(net, ilevel[len(steps) - 1]):
-                        for recalc in (False, True):
+                        for recalc in recalcs:
                             yield (recalc, init, steps)
             else:
                 ops = net.ops()
@@ -705,7 +885,7 @@ def work(task):
                     k = rng.randint(2, maxlen) if maxlen >= 2 else 1
                     steps = tuple((op, i, rng.choice(evals) if s < k - 1 else None)
                                   for s, (op, i) in enumerate(rng.choice(ops) for _ in range(k)))
-                    yield (rng.random() < 0.5, rng.choice(ini), steps)
+                    yield (rng.random() < 0.5 and len(recalcs) > 1, rng.choice(ini), steps)
 
         for case in gen():
             if time.time() > deadline:
@@ -750,7 +930,10 @@ def run(res, tier, seed):
                  "thorough: <= 3 exhaustive), on 4 elements (quick: 1 edit exhaustive for scalar cells, 2 sampled; "
                  "thorough: <= 2 exhaustive, 3 sampled) and on 5 elements (thorough: 1 edit exhaustive for scalar cells, "
                  "<= 3 sampled); realisations: scalar cells in one space / in two spaces (calls by attribute path) / "
-                 "elements of one cells with one or two arguments / one or two uncached cells / one ItemSpace node; every edited "
+                 "elements of one cells with one or two arguments / one or two uncached cells / one ItemSpace node / "
+                 "the nodes split over two models, read across through a reference to the cells or to the space "
+                 "(all DAGs on 2-3 elements with a dependency across the boundary: quick <= 2 edits, 3 sampled; "
+                 "thorough <= 3 edits on 2 elements, <= 2 on 3, 3 sampled, 4 elements sampled); every edited "
                  "element x {assign, clear_at, clear(), clear_all(), delete ItemSpace, reference change} x recalc on/off "
                  "x initial evaluation {all, one target, none}; + the DAGs on <= 3 elements (4 sampled, thorough) with "
                  "allow_none on the cells / the space / the model, <= 1 element computing None (alone or next to an uncached "
@@ -765,7 +948,7 @@ def run(res, tier, seed):
     tasks = []
     for row in plan(tier):
         n, variants = row[0], row[1]
-        nets = [(nt.preds, nt.kinds, nt.layout, nt.none) for nt in nets_of(n, variants)]
+        nets = [(nt.preds, nt.kinds, nt.layout, nt.none, nt.models) for nt in nets_of(n, variants)]
         if row[5] is not None and n == 5:           # sampled rows on 5 elements: a seeded subset of the nets
             r = random.Random("%s/nets5/%s" % (seed, row[2]))
             r.shuffle(nets)
@@ -774,6 +957,8 @@ def run(res, tier, seed):
         for c in range(0, len(nets), chunk):
             tasks.append((row, nets[c:c + chunk], tier, seed, deadline))
     nproc = max(1, min(12, (os.cpu_count() or 2) - 2))
+    if os.environ.get("VERIF_DRIVER_PROCS"):           # shared machine: cap the worker processes
+        nproc = max(1, int(os.environ["VERIF_DRIVER_PROCS"]))
     ctx = multiprocessing.get_context("fork")
     exhaustive = True
     with ctx.Pool(nproc) as pool:
